@@ -527,8 +527,12 @@ func (e *enc) trCall(n *ECall, env *Env) Val {
 	case "replaceFirst":
 		a := e.trArgs(n.Args, env)
 		return Val{T: "(str.replace " + a[0].T + " " + a[1].T + " " + a[2].T + ")", S: "String"}
-	case "isptr":
-		return e.tr(n.Args[0], env)
+	case "itag":
+		v := e.tr(n.Args[0], env)
+		return Val{T: "(i-tag " + v.T + ")", S: "Int"}
+	case "sliceptr":
+		v := e.tr(n.Args[0], env)
+		return Val{T: "(s-ptr " + v.T + ")", S: "Int"}
 	case "tagof":
 		// tagof("string") -> interface type tag constant of a Go type given by name
 		if s, ok := n.Args[0].(*EStr); ok {
@@ -547,9 +551,27 @@ func (e *enc) trCall(n *ECall, env *Env) Val {
 			return Val{T: "(" + unboxFn(so) + " (i-val " + v.T + "))", S: so}
 		}
 	case "addr":
-		// addr(G) : the identity of a global / field location
+		// addr(G): the identity of a package-level variable
+		if id, ok := n.Args[0].(*EIdent); ok {
+			for _, p := range e.v.pkgs {
+				if g, ok := p.Members[id.Name].(*ssaGlobal); ok {
+					return Val{T: fmt.Sprint(e.v.globalID(e.globalName(g))), S: "Int"}
+				}
+			}
+		}
+		e.trFail("addr() of unknown global %s", n.Args[0])
+	case "fresh":
+		// fresh(x): reference x was allocated after the pre-state
+		if env.old == nil {
+			e.trFail("fresh() needs a pre-state")
+		}
+		e.regState("frontier", "Int")
 		v := e.tr(n.Args[0], env)
-		return Val{T: v.T, S: "Int"}
+		return Val{T: "(>= " + v.T + " " + e.getIn(env.old, "frontier") + ")", S: "Bool"}
+	case "allocated":
+		e.regState("frontier", "Int")
+		v := e.tr(n.Args[0], env)
+		return Val{T: "(< " + v.T + " " + e.getIn(env.cur, "frontier") + ")", S: "Bool"}
 	}
 	// ghost state read
 	if g, ok := e.v.ct.Ghosts[n.Fn]; ok {
